@@ -23,13 +23,16 @@
          a query of the paths `ins` through V (Safety, SafetyFiles, caller-json, caller-logfmt,
          caller-color), repeated many times: outs[x] are the DISTINCT results seen for
          ins[x] (Go randomises the iteration order of the table), lens the distinct lengths
-         of the returned list.  Every result must be in Outputs(st, ins[x], {}).
+         of the returned list.  Every result must be in Outputs(st, ins[x], {}) - one hardened
+         string (plus its shorter relative form where there is one), whatever the order.
 
    (B = byte string as array of ints, R = [anch, lit, wild, repl].)
 
    A result outside the allowed set is counted in `bad` (with a few examples) under its
-   class: the name of the known deviation class if the as-built semantics (AllDevs, or a part
-   of it) explains it, "unexplained" otherwise; the orchestrator turns the classes into
+   class: "nested-mappings-order" / "hardwired-volumes-rule" when the deviations MapOrder /
+   HardVol (what revision ed9a368 does) explain it, the name of the known deviation class if the
+   older as-built semantics (AllDevs, or a part of it, with or without MapOrder and HardVol)
+   explains it, "unexplained" otherwise; the orchestrator turns the classes into
    finding keys.  A result that the as-built deviations do not explain is tried against the
    deviations of the newer dimensions ("StaleWd": relative form computed against the start
    directory, "StopRel": relative strings end the scan of the table, "LostWdRaw": the input handed
@@ -57,16 +60,23 @@ DevClass(s, p) ==
 \* class of a result o that is NOT in the allowed set: explained by the as-built semantics (or by
 \* a part of it - a tree in which only some of the deviations were repaired) or not at all
 ClassBad(s, p, o) ==
-    IF s.wd = LOST /\ o \in Outputs(s, p, {"LostWdRaw"}) THEN "unhardened-without-working-directory"
-    ELSE IF o \in Outputs(s, p, AllDevs) \/ \E D \in SUBSET AllDevs : o \in Outputs(s, p, D)
+    IF s.wd = LOST /\ (o \in Outputs(s, p, {"LostWdRaw"}) \/ o \in Outputs(s, p, {"LostWdRaw"} \cup BuiltDevs))
+    THEN "unhardened-without-working-directory"
+    ELSE IF o \in Outputs(s, p, {"MapOrder"}) THEN "nested-mappings-order"
+    ELSE IF o \in Outputs(s, p, {"HardVol"}) THEN "hardwired-volumes-rule"
+    ELSE IF o \in Outputs(s, p, BuiltDevs) THEN "nested-mappings-order"
+    ELSE IF \E D \in SUBSET AllDevs : o \in Outputs(s, p, D) \/ o \in Outputs(s, p, D \cup BuiltDevs)
     THEN DevClass(s, p)
-    ELSE IF s.wd # Cwd /\ o \in Outputs(s, p, {"StaleWd"}) THEN "stale-working-directory"
-    ELSE IF ~Abs(p) /\ o \in Outputs(s, p, {"StopRel"}) THEN "relative-path-not-hardened"
+    ELSE IF s.wd # Cwd /\ (o \in Outputs(s, p, {"StaleWd"}) \/ o \in Outputs(s, p, {"StaleWd"} \cup BuiltDevs))
+    THEN "stale-working-directory"
+    ELSE IF ~Abs(p) /\ (o \in Outputs(s, p, {"StopRel"}) \/ o \in Outputs(s, p, {"StopRel", "HardVol"}))
+    THEN "relative-path-not-hardened"
     ELSE "unexplained"
 
 Classes == {"panic", "length", "environment", "privacy-flag-off-by-default", "unexplained", "empty-prefix",
             "root-prefix", "home-exposed", "prefix-without-boundary", "inner-occurrence-rewritten",
-            "stale-working-directory", "relative-path-not-hardened", "unhardened-without-working-directory"}
+            "stale-working-directory", "relative-path-not-hardened", "unhardened-without-working-directory",
+            "nested-mappings-order", "hardwired-volumes-rule"}
 MaxEx == 8      \* examples kept per class (the count is exact)
 
 \* the queried paths of a line: given literally or as indexes into InputSeq
@@ -74,20 +84,20 @@ InsOf(e) == IF Has(e, "ix") THEN [x \in 1..Len(e.ix) |-> InputSeq[e.ix[x]]] ELSE
 
 (* Judgement of one query line, accumulated over the queried paths x = 1..m (one evaluation of
    Outputs per path): bad = the rejected results (got: sequence of byte strings, expected: set
-   of byte strings); iteration-order statistics: alts = number of allowed results of the
-   paths whose result depends on the ORDER of the table, seen = how many of those the
-   implementation showed.                                                                    *)
+   of byte strings); iteration-order statistics: alts = number of queried paths that nested
+   mappings cover - a fold in map order (deviation MapOrder) would have more than one result there -
+   seen = for how many of them the implementation showed an allowed result.                   *)
 RECURSIVE Judge(_, _, _, _, _)
 Judge(s, e, ins, line, x) ==
     IF x = 0 THEN [bad |-> {}, alts |-> 0, seen |-> 0]
     ELSE LET r == Judge(s, e, ins, line, x - 1)
              p == ins[x]
              A == Outputs(s, p, {})
-             multi == s.fp /\ Cardinality(PrefixStage(s, p, {})) > 1
+             multi == s.fp /\ Cardinality(PrefixStage(s, p, {"MapOrder"})) > 1
              O == {e.outs[x][y] : y \in 1..Len(e.outs[x])}
          IN [bad  |-> r.bad \cup {[line |-> line, idx |-> x, cls |-> ClassBad(s, p, o), got |-> <<o>>, expected |-> A] : o \in O \ A},
-             alts |-> r.alts + (IF multi THEN Cardinality(A) ELSE 0),
-             seen |-> r.seen + (IF multi THEN Cardinality(O \cap A) ELSE 0)]
+             alts |-> r.alts + (IF multi THEN 1 ELSE 0),
+             seen |-> r.seen + (IF multi /\ O \cap A # {} THEN 1 ELSE 0)]
 
 LengthBad(e, n, line) ==
     IF Len(e.outs) # n \/ \E x \in 1..Len(e.lens) : e.lens[x] # n
